@@ -19,6 +19,9 @@ def is_result_ty(f, tid, depth=0):
     return False
 
 
+EXAMINED = [0]
+
+
 def dropped_results(f, body):
     """[(block, description)] of result values that are only dropped."""
     out = []
@@ -69,6 +72,7 @@ def dropped_results(f, body):
             continue
         if not is_result_ty(f, body.locals[dst]):
             continue
+        EXAMINED[0] += 1
         # closure of locals the value is moved into
         seen = set()
         work = [dst]
